@@ -12,11 +12,22 @@ func ByName(a, b string) bool {
 	return a < b
 }
 
+// ByNameSmart orders numbers by magnitude, ahead of everything that isn't a
+// number, and anything else (including equal numbers spelled differently) by text.
+// This keeps it a strict total order, so the result never depends on input order
 func ByNameSmart(a, b string) bool {
 	v0, err0 := strconv.ParseFloat(a, 64)
 	v1, err1 := strconv.ParseFloat(b, 64)
-	if err0 == nil && err1 == nil {
-		return v0 < v1
+	num0 := err0 == nil && v0 == v0 // NaN can't be ordered, treat as text
+	num1 := err1 == nil && v1 == v1
+	if num0 && num1 {
+		if v0 != v1 {
+			return v0 < v1
+		}
+		return a < b
+	}
+	if num0 != num1 {
+		return num0
 	}
 	return a < b
 }
